@@ -64,6 +64,46 @@ int vd_is_filler_word(const char *w)
     return (w[0] == '<' && w[L - 1] == '>') || (w[0] == '[' && w[L - 1] == ']') || (w[0] == '+' && w[L - 1] == '+');
 }
 
+/* ================= model tables ================= */
+#include <soundswallower/bin_mdef.h>
+#include <soundswallower/mdef.h>
+static int *tri_byb[2][256], tri_nb[2][256], tri_built[2];
+typedef struct tkey { int b, l, r, pos, pid; } tkey;
+#define TCACHE 16384
+static tkey *tcache[2]; static int tcache_n[2];
+static int tri_lookup(bin_mdef_t *m, int lang, int b, int l, int r, int pos)
+{
+    int k;
+    for (k = 0; k < tri_nb[lang][b]; ++k) { int p = tri_byb[lang][b][k]; const mdef_entry_t *e = &m->phone[p]; if (e->info.cd.wpos == pos && e->info.cd.ctx[1] == l && e->info.cd.ctx[2] == r) return p; }
+    return -1;
+}
+int vd_triphone(bin_mdef_t *m, int lang, int b, int l, int r, int pos)
+{
+    int sil = m->sil, k, q, p, l2, r2, order[4], no = 0, l0 = l, r0 = r;
+    if (!tri_built[lang]) {
+        int pid; tri_built[lang] = 1;
+        for (pid = m->n_ciphone; pid < m->n_phone; ++pid) ++tri_nb[lang][m->phone[pid].info.cd.ctx[0]];
+        for (k = 0; k < m->n_ciphone && k < 256; ++k) { tri_byb[lang][k] = (int *)malloc(sizeof(int) * (size_t)(tri_nb[lang][k] + 1)); tri_nb[lang][k] = 0; }
+        for (pid = m->n_ciphone; pid < m->n_phone; ++pid) { int bb = m->phone[pid].info.cd.ctx[0]; tri_byb[lang][bb][tri_nb[lang][bb]++] = pid; }
+        tcache[lang] = (tkey *)malloc(sizeof(tkey) * TCACHE);
+    }
+    for (k = 0; k < tcache_n[lang]; ++k) { const tkey *t = &tcache[lang][k]; if (t->b == b && t->l == l && t->r == r && t->pos == pos) return t->pid; }
+    if (sil >= 0 && m->phone[l].info.ci.filler) l = sil;
+    if (sil >= 0 && m->phone[r].info.ci.filler) r = sil;
+    order[no++] = pos; for (q = 0; q < N_WORD_POSN; ++q) if (q != pos) order[no++] = q;
+    p = -1;
+    for (q = 0; q < no && p < 0; ++q) p = tri_lookup(m, lang, b, l, r, order[q]);
+    if (p < 0 && sil >= 0) {
+        l2 = l; r2 = r;
+        if (pos == WORD_POSN_BEGIN || pos == WORD_POSN_SINGLE) l2 = sil;
+        if (pos == WORD_POSN_END || pos == WORD_POSN_SINGLE) r2 = sil;
+        if (l2 != l || r2 != r) for (q = 0; q < no && p < 0; ++q) p = tri_lookup(m, lang, b, l2, r2, order[q]);
+    }
+    if (p < 0) p = b;
+    if (tcache_n[lang] < TCACHE) { tkey *t = &tcache[lang][tcache_n[lang]++]; t->b = b; t->l = l0; t->r = r0; t->pos = pos; t->pid = p; }
+    return p;
+}
+
 /* ================= audio ================= */
 static int16_t *rec[3]; static long nrec[3]; static int inited;
 void vd_init(void)
